@@ -1,7 +1,7 @@
 use crate::helpers::{case_style::snakify, non_enum_error, HasStrumVariantProperties};
 use proc_macro2::TokenStream;
 use quote::{format_ident, quote};
-use syn::{Data, DeriveInput};
+use syn::{ext::IdentExt, Data, DeriveInput};
 
 pub fn enum_is_inner(ast: &DeriveInput) -> syn::Result<TokenStream> {
     let variants = match &ast.data {
@@ -19,7 +19,7 @@ pub fn enum_is_inner(ast: &DeriveInput) -> syn::Result<TokenStream> {
             }
 
             let variant_name = &variant.ident;
-            let fn_name = format_ident!("is_{}", snakify(&variant_name.to_string()));
+            let fn_name = format_ident!("is_{}", snakify(&variant_name.unraw().to_string()));
             let doc_comment = format!(
                 "Returns [true] if the enum is [{}::{}] otherwise [false]",
                 enum_name, variant_name
